@@ -111,6 +111,7 @@ class Walk:
         self.base = {}           # (gid, idx) -> base time for relative src scripts
         self.req_by_time = {}    # time -> set of instances (for shared_time)
         self.query_mismatch = 0
+        self.wall_nodes = set()
         self.fb_sinks = set()
         for st in prog["stmts"]:
             if st.get("op") == "fb_bind":
@@ -164,10 +165,18 @@ class Walk:
     def _apply_ops(self, key, ops, now, started, tags):
         p = self.P(key)
         for op in ops:
+            if key in self.wall_nodes:
+                return
             k = op[0]
             q = op[-1]
             if k == "s":
                 mode, n, tag = op[1], op[2], op[3]
+                if mode.startswith("wall"):
+                    # wall-clock alarms: the requested engine time depends on the host clock; the owner is taken out of
+                    # the exact model (C17 checks alarms with an inequality instead)
+                    self.wall_nodes.add(key)
+                    p.reset()
+                    continue
                 when = now + n if mode == "rel" else n
                 self._request(key, when, tag, now, started)
             elif k == "u":
@@ -278,7 +287,7 @@ class Walk:
                 elif st.get("op") == "node" and len(e) > 7:
                     x = e[7]
                     tags = st.get("tags", [])
-                    if "q0" in x and self.check_queries:
+                    if "q0" in x and self.check_queries and key not in self.wall_nodes:
                         exp = self.P(key).query(now, tags)
                         if x["q0"] != exp:
                             which = "nst" if x["q0"][0] != exp[0] else "is_scheduled" if x["q0"][1] != exp[1] else "is_scheduled_now" if x["q0"][2] != exp[2] else "tags"
